@@ -35,13 +35,13 @@ Lemma stats_of_nil : stats_of [] = stats0.
 Proof. reflexivity. Qed.
 
 Definition panics (e : event) : bool :=
-  match e with EAct _ _ StPending => true | _ => false end.
+  match e with EAct _ _ StPending _ => true | _ => false end.
 
 Lemma handle_stats_of : forall pre e,
   handle (stats_of pre) e = if panics e then None else Some (stats_of (pre ++ [e])).
 Proof.
   intros pre e. unfold stats_of, tri_of, quad_of.
-  destruct e as [g|b|n a f|k i st|i st|i st|ids]; simpl;
+  destruct e as [g|b|n a f|k i st he|i st|i st|ids]; simpl;
     try (rewrite !occ_snoc; simpl; rewrite !Nat.add_0_r; reflexivity).
   - destruct k, st; simpl; try reflexivity;
       rewrite !occ_snoc; simpl; rewrite ?Nat.add_0_r, ?Nat.add_1_r; reflexivity.
@@ -49,7 +49,7 @@ Proof.
 Qed.
 
 Lemma handle_nocount : forall pre e,
-  match e with EAct _ _ _ | EWait _ _ => False | _ => True end ->
+  match e with EAct _ _ _ _ | EWait _ _ => False | _ => True end ->
   stats_of (pre ++ [e]) = stats_of pre.
 Proof.
   intros pre e H. unfold stats_of, tri_of, quad_of. rewrite !occ_snoc.
@@ -87,7 +87,7 @@ Lemma is_failure_split : forall e,
   is_failure e = is_act KApply StFailed e || is_act KPrune StFailed e || is_act KDelete StFailed e
                  || is_wait WFailed e || is_wait WTimeout e.
 Proof.
-  intros e. destruct e as [g|b|n a f|k i st|i st|i st|ids]; try reflexivity.
+  intros e. destruct e as [g|b|n a f|k i st he|i st|i st|ids]; try reflexivity.
   - destruct k, st; reflexivity.
   - destruct st; reflexivity.
 Qed.
@@ -127,7 +127,7 @@ Proof.
   intros ps es. induction es as [|e t IH]; intros pre.
   - simpl. rewrite app_nil_r, summary_lines_spec, result_error_spec. reflexivity.
   - cbn [print_loop]. rewrite handle_stats_of.
-    destruct e as [g|b|n a f|k i st|i st|i st|ids].
+    destruct e as [g|b|n a f|k i st he|i st|i st|ids].
     + (* init *)
       simpl. rewrite IH, app_snoc_cons. reflexivity.
     + (* error *)
@@ -179,7 +179,7 @@ Qed.
 
 Lemma line_for_matches : forall ps before e, prints ps e = true -> line_matches e (line_for before e).
 Proof.
-  intros ps before e H. destruct e as [g|b|n a f|k i st|i st|i st|ids]; simpl in *;
+  intros ps before e H. destruct e as [g|b|n a f|k i st he|i st|i st|ids]; simpl in *;
     try reflexivity; try discriminate. now eexists.
 Qed.
 
@@ -241,7 +241,7 @@ Proof.
   intros es. induction es as [|e t IH]; intros pre Hwf.
   - simpl. now rewrite app_nil_r.
   - simpl in Hwf. apply andb_true_iff in Hwf as [He Ht].
-    destruct e as [g|b|n a f|k i st|i st|i st|ids]; simpl in *;
+    destruct e as [g|b|n a f|k i st he|i st|i st|ids]; simpl in *;
       try (rewrite (IH _ Ht), app_snoc_cons; reflexivity).
     + now subst b.
     + destruct st; try discriminate; rewrite (IH _ Ht), app_snoc_cons; reflexivity.
@@ -262,3 +262,24 @@ Qed.
 
 Lemma result_full_thm : forall ps es, snd (print ps es) = result_spec [] es.
 Proof. intros ps es. now rewrite print_spec. Qed.
+
+(* the Error field of an actuation event influences neither the counters nor
+   the result: only the line shows it *)
+Lemma occ_mid : forall f (es1 : list event) x es2,
+  occ f (es1 ++ x :: es2) = occ f es1 + (if f x then 1 else 0) + occ f es2.
+Proof.
+  intros f es1 x es2. unfold occ. rewrite filter_app, app_length. simpl.
+  destruct (f x); simpl; lia.
+Qed.
+
+Lemma error_field_irrelevant : forall s k id st h h',
+  handle s (EAct k id st h) = handle s (EAct k id st h') /\
+  is_failure (EAct k id st h) = is_failure (EAct k id st h') /\
+  (forall a es1 es2, counts_after a (es1 ++ EAct k id st h :: es2) = counts_after a (es1 ++ EAct k id st h' :: es2)).
+Proof.
+  intros s k id st h h'. split; [destruct k; reflexivity|]. split; [destruct st; reflexivity|].
+  intros a es1 es2. unfold counts_after, act_counts, wait_counts.
+  rewrite !occ_mid.
+  assert (Ha : forall k0 s0, is_act k0 s0 (EAct k id st h) = is_act k0 s0 (EAct k id st h')) by reflexivity.
+  rewrite !Ha. destruct a; reflexivity.
+Qed.
